@@ -9,7 +9,7 @@
   `fixes/D22_merge_spans.patch` (`merge` takes `min` start / `max` end) and
   `fixes/D32_keep_separate_domains.patch` (`_merge_domain_list` keeps a run of fragments when the
   next fragment of the profile is too far away, instead of forgetting it) and
-  `fixes/D60_remove_overlapping_by_rank.patch` (`_remove_overlapping` works down the results by
+  `fixes/D61_remove_overlapping_by_rank.patch` (`_remove_overlapping` works down the results by
   score and compares each with *every* kept result, not only with the last one) applied.
 
   Representation (exact, order-isomorphic; see `harness/props/c13.py`):
@@ -106,7 +106,7 @@ def keepBest (env : Env) : List (Nat × Hit) → List (Nat × Hit) → List (Nat
 
 def leIdx (a b : Nat × Hit) : Bool := decide (a.1 ≤ b.1)
 
-/-- `_remove_overlapping(results, hmm_lengths)` (fix D60): by descending score (ties: position),
+/-- `_remove_overlapping(results, hmm_lengths)` (fix D61): by descending score (ties: position),
     a result is kept unless it starts more than the margin before the end of (or ends more than
     the margin after the start of) a kept one; the kept ones are returned in their input order -/
 def removeOverlapping (env : Env) (results : List Hit) : List Hit :=
